@@ -439,7 +439,13 @@ func blindRotations(w *tr.Writer, prog *int, logNBR int, f string, h int, trivia
 	if h == 0 {
 		xs = ring.Ternary{P: 2.0 / 3}
 	}
-	paramsLWE, err := rlwe.NewParametersFromLiteral(rlwe.ParametersLiteral{LogN: 4, Q: []uint64{0x3001}, Xs: xs, NTTFlag: false})
+	// every other set-up gives the LWE side a second prime: the sample handed to Evaluate then sits below the top level
+	// of its parameters, and the rounding to 2N must use the modulus of the sample's own level
+	lweQ := []uint64{0x3001}
+	if seed%2 == 1 {
+		lweQ = append(lweQ, 0x3401) // 13313 = 1 mod 32, prime
+	}
+	paramsLWE, err := rlwe.NewParametersFromLiteral(rlwe.ParametersLiteral{LogN: 4, Q: lweQ, Xs: xs, NTTFlag: false})
 	tr.Must(err)
 	q0LWE := paramsLWE.Q()[0]
 	nbr := paramsBR.N()
